@@ -5,6 +5,7 @@ import (
 	"fmt"
 	. "github.com/postalsys/muti-metroo/internal/verifsim/meshkit"
 	"net"
+	"strings"
 	"time"
 
 	"github.com/postalsys/muti-metroo/internal/identity"
@@ -479,15 +480,55 @@ func runC14() {
 	// stable phase: longer than the route TTL, sampled twice per interval
 	phase := 3*ttl + 2*iv
 	margin := 10 * time.Second
+	attributed := map[string]bool{} // origin|route for which some announcement was compared
 	for simrt.Elapsed() < stableFrom+phase {
 		simrt.Sleep(iv / 2)
 		now := simrt.Elapsed()
 		for j, od := range m.Nodes {
-			// the origin's most recent own announcement older than the margin
-			var lastAnn time.Duration = -1
+			// One announcement is one (origin, sequence number); the origin writes
+			// it to its neighbours one after the other, possibly at different
+			// instants, and a route set may be split over several announcements.
+			// Per announcement: the routes it carries, the instant the origin
+			// began sending it and the instant of its last own send.
+			type ann struct {
+				first, last time.Duration
+				keys        []string
+			}
+			anns := map[uint64]*ann{}
+			var seqs []uint64
 			for _, o := range *obs {
-				if o.Origin == od.ID && o.From == od.Name && o.At >= stableFrom && o.At <= now-margin && o.At > lastAnn {
-					lastAnn = o.At
+				if o.Origin != od.ID || o.From != od.Name {
+					continue
+				}
+				a := anns[o.AdvSeq]
+				if a == nil {
+					a = &ann{first: o.At, last: o.At}
+					for _, r := range o.Routes {
+						a.keys = append(a.keys, advRouteKey(m, r))
+					}
+					anns[o.AdvSeq] = a
+					seqs = append(seqs, o.AdvSeq)
+				}
+				if o.At < a.first {
+					a.first = o.At
+				}
+				if o.At > a.last {
+					a.last = o.At
+				}
+			}
+			// per route: the start of the origin's most recent announcement of it
+			// that began in the stable phase and whose last own send is older
+			// than the margin
+			lastAnn := map[string]time.Duration{}
+			for _, sq := range seqs {
+				a := anns[sq]
+				if a.first < stableFrom || a.last > now-margin {
+					continue
+				}
+				for _, k := range a.keys {
+					if cur, ok := lastAnn[k]; !ok || a.first > cur {
+						lastAnn[k] = a.first
+					}
 				}
 			}
 			orig := m.OriginatedBy(j)
@@ -521,18 +562,72 @@ func runC14() {
 					if !ok {
 						simrt.Failf("live-origin-route-lost", "route of a live connected announcing origin disappeared", "%s lost %s of %s at t=%v (stable since %v, ttl %v)", nd.Name, w, od.Name, now, stableFrom, ttl)
 					}
-					if lastAnn >= 0 && at < lastAnn {
-						simrt.Failf("announcement-did-not-refresh", "origin announcement did not renew a receiver's copy", "%s: %s of %s last updated at %v but %s announced at %v (now %v)", nd.Name, w, od.Name, at, od.Name, lastAnn, now)
+					began, announced := lastAnn[w]
+					if !announced {
+						continue
 					}
+					attributed[od.Name+" "+w] = true
+					if at < began {
+						simrt.Failf("announcement-did-not-refresh", "origin announcement did not renew a receiver's copy", "%s: %s of %s last updated at %v but %s began announcing it at %v (now %v)", nd.Name, w, od.Name, at, od.Name, began, now)
+					}
+					simrt.Probe("c14_refresh_compared")
 				}
 			}
 		}
 		simrt.Probe("c14_stable_sample")
 	}
+	// The stable phase spans several announcement intervals: every route of every
+	// origin must have been matched to an announcement on the wire at least once,
+	// otherwise the comparison above was vacuous for it.
+	for j, od := range m.Nodes {
+		orig := m.OriginatedBy(j)
+		want := []string{"agent|" + od.Name}
+		for _, c := range orig.CIDR {
+			want = append(want, "cidr|"+c)
+		}
+		for _, d := range orig.Domain {
+			want = append(want, "domain|"+d)
+		}
+		for _, f := range orig.Forward {
+			want = append(want, "forward|"+f)
+		}
+		for _, w := range want {
+			if !attributed[od.Name+" "+w] {
+				simrt.Failf("origin-route-never-announced", "a configured route of a live origin was in none of its announcements during a stable phase longer than three route lifetimes", "%s of %s (stable %v..%v, interval %v)", w, od.Name, stableFrom, simrt.Elapsed(), iv)
+			}
+		}
+	}
 	m.StopAll()
 }
 
 type simnetLink = simnet.Link
+
+// advRouteKey names a route carried by an announcement the way RoutesAt names
+// stored routes ("table|key").
+func advRouteKey(m *Mesh, r protocol.Route) string {
+	switch r.AddressFamily {
+	case protocol.AddrFamilyAgent:
+		return "agent|" + m.NameOf(protocol.DecodeAgentPrefix(r.Prefix))
+	case protocol.AddrFamilyDomain:
+		p := strings.ToLower(protocol.DecodeDomainPrefix(r.Prefix))
+		if r.PrefixLength == 1 && !strings.HasPrefix(p, "*.") {
+			p = "*." + p
+		}
+		return "domain|" + p
+	case protocol.AddrFamilyForward:
+		k, t := protocol.DecodeForwardKeyAndTarget(r.Prefix)
+		return "forward|" + k + "=" + t
+	case protocol.AddrFamilyIPv4, protocol.AddrFamilyIPv6:
+		bits := 32
+		if r.AddressFamily == protocol.AddrFamilyIPv6 {
+			bits = 128
+		}
+		ip := make(net.IP, bits/8)
+		copy(ip, r.Prefix)
+		return "cidr|" + (&net.IPNet{IP: ip, Mask: net.CIDRMask(int(r.PrefixLength), bits)}).String()
+	}
+	return fmt.Sprintf("family%d|%x", r.AddressFamily, r.Prefix)
+}
 
 func simrtEpoch() time.Time { return time.Now().Add(-simrt.Elapsed()) }
 
